@@ -1,4 +1,6 @@
 import RTV.Drv.Match
+import RTV.Drv.Num
+import RTV.Drv.ResGen
 import RTV.Drv.Timex
 import RTV.Drv.Factory
 import RTV.Drv.Re
@@ -11,10 +13,12 @@ def dispatch (line : String) : String :=
   match line.splitOn "\t" with
   | op :: args =>
     (dispatchMatch op args
+      <|> dispatchResGen op args
       <|> dispatchFactory op args
       <|> dispatchRe op args
       <|> dispatchTimex op args
       <|> dispatchCal op args
+      <|> dispatchNum op args
       -- <|> dispatchOther op args   (one alternative per layer)
       ).getD "bad-op"
   | _ => "bad-op"
